@@ -30,6 +30,22 @@ CycleWalk(t, seen, rules) ==
     [] t.k \in {"and", "or"} -> \E i \in 1..Len(t.as) : CycleWalk(t.as[i], seen, rules)     \* each branch its own copy
     [] OTHER -> FALSE
 
+\* the walkers as they were shipped (they looked only at the .rules list of and/or
+\* nodes, so the operand of a NotCheck was never visited) - negative control
+RECURSIVE UndefWalkShipped(_, _)
+UndefWalkShipped(t, rules) ==
+  CASE t.k = "rule" -> ~Defined(rules, t.name)
+    [] t.k \in {"and", "or"} -> \E i \in 1..Len(t.as) : UndefWalkShipped(t.as[i], rules)
+    [] OTHER -> FALSE
+RECURSIVE CycleWalkShipped(_, _, _)
+CycleWalkShipped(t, seen, rules) ==
+  CASE t.k = "rule" -> IF t.name \in seen THEN TRUE
+                       ELSE IF Defined(rules, t.name) THEN CycleWalkShipped(Body(rules, t.name), seen \cup {t.name}, rules)
+                       ELSE FALSE
+    [] t.k \in {"and", "or"} -> \E i \in 1..Len(t.as) : CycleWalkShipped(t.as[i], seen, rules)
+    [] OTHER -> FALSE
+CheckRulesShipped(rules) == \A i \in 1..Len(rules) : ~UndefWalkShipped(rules[i][2], rules) /\ ~CycleWalkShipped(rules[i][2], {}, rules)
+
 \* Enforcer.check_rules: TRUE = nothing to report
 CheckRulesOp(rules) == \A i \in 1..Len(rules) : ~UndefWalk(rules[i][2], rules) /\ ~CycleWalk(rules[i][2], {}, rules)
 
